@@ -1,7 +1,7 @@
 (* Decidable premises of the runtime theorems, evaluated by vm_compute on every real instance. *)
 From Coq Require Import List String NArith Arith Bool.
 Import ListNotations.
-From IT Require Import Sdpl.IR Sdpl.Elab Runtime.Actor Runtime.ActorInv Runtime.Combined Runtime.InvDefs2.
+From IT Require Import Sdpl.IR Sdpl.Elab Runtime.Actor Runtime.ActorInv Runtime.Combined Runtime.InvDefs2 Gen.Ctor.
 Open Scope string_scope.
 
 Definition is_nil {X} (l : list X) : bool := match l with [] => true | _ => false end.
@@ -137,4 +137,15 @@ Definition ctor_shape_ok (m : model) : bool :=
           end
       | _ => false end
   | _ => false end.
-Definition wf_C04 (m : model) : bool := wf_struct m && ctor_shape_ok m.
+(* the recorded statement order as constructor statements of Gen/Ctor.v *)
+Definition ctor_stmts (c : ctor_body) : list cstmt := flat_map (fun t => match stmt_of t with Some x => [x] | None => [] end) (cb_order c).
+Definition cstmt_eqb (a b : cstmt) : bool :=
+  match a, b with SUser, SUser | SDebut, SDebut | SPhantom, SPhantom | SChan, SChan | SSpawn, SSpawn => true | _, _ => false end.
+Fixpoint cstmts_eqb (a b : list cstmt) : bool :=
+  match a, b with [], [] => true | x :: a', y :: b' => cstmt_eqb x y && cstmts_eqb a' b' | _, _ => false end.
+Definition ctor_order_ok (c : ctor_body) : bool :=
+  cstmts_eqb (core (ctor_stmts c)) [SUser; SChan; SSpawn] && cstmt_eqb (hd SDebut (ctor_stmts c)) SUser.
+Definition actor_ctor (m : model) : option ctor_body :=
+  match ctor_of m with Some c => match cb_user c with Some _ => Some c | None => None end | None => None end.
+Definition wf_C04 (m : model) : bool :=
+  wf_struct m && ctor_shape_ok m && match actor_ctor m with Some c => ctor_order_ok c | None => true end.
